@@ -48,6 +48,74 @@ func rulesC01(c *Ctx) {
 	ruleC01TimeEquality(c)
 	ruleC01NotOutermost(c)
 	ruleC01Literal(c)
+	ruleC01Coerce(c)
+}
+
+// ruleC01Coerce: a number compared as a string has ONE textual form, whether it comes from a stored field,
+// a literal or a count: every EvalString in package ast renders a float with strconv.FormatFloat(x, 'f',
+// -1, 64) and an integer with base-10 strconv.FormatInt — never with the display form (String(), fmt %v:
+// exponent notation from 1e21 / below 1e-4 on floats), otherwise a literal and the stored value it equals
+// stop matching.
+func ruleC01Coerce(c *Ctx) {
+	p := c.P
+	fmtFloat := p.ExtFunc("strconv", "FormatFloat")
+	fmtInt := p.ExtFunc("strconv", "FormatInt")
+	n := 0
+	for _, fn := range c.prodFuncs("ast") {
+		root := fn
+		for root.Parent() != nil {
+			root = root.Parent()
+		}
+		if root.Name() != "EvalString" || root.Signature.Recv() == nil {
+			continue
+		}
+		name := FnName(fn)
+		for _, call := range callsIn(fn) {
+			cc := call.Common()
+			cal, _ := calleeOf(cc)
+			switch {
+			case cal != nil && cal == fmtFloat:
+				n++
+				args := cc.Args
+				ok := len(args) == 4
+				if ok {
+					f, okF := constantInt(asConst(args[1]))
+					pr, okP := constantInt(asConst(args[2]))
+					bs, okB := constantInt(asConst(args[3]))
+					ok = okF && okP && okB && f == 'f' && pr == -1 && bs == 64
+				}
+				c.Check(ok, "C01.COERCE", name+": float as string", p.Pos(call.Pos()), "rendered with FormatFloat(x, 'f', -1, 64)", "a float is rendered for string comparison in a form other than FormatFloat(x, 'f', -1, 64): the same number has a different text on the two sides of a comparison")
+			case cal != nil && cal == fmtInt:
+				n++
+				ok := len(cc.Args) == 2
+				if ok {
+					b, okB := constantInt(asConst(cc.Args[1]))
+					ok = okB && b == 10
+				}
+				c.Check(ok, "C01.COERCE", name+": integer as string", p.Pos(call.Pos()), "rendered in base 10", "an integer is rendered for string comparison in a base other than 10")
+			case cal != nil && cal.Pkg() != nil && cal.Pkg().Path() == "fmt" && strings.HasPrefix(cal.Name(), "Sprint"):
+				n++
+				c.Bad("C01.COERCE", name+": "+cal.Name(), p.Pos(call.Pos()), "EvalString builds its result with fmt."+cal.Name()+" (the display form: %v switches floats to exponent notation): a literal and the stored number it equals render differently and stop matching")
+			case (cc.IsInvoke() && cc.Method.Name() == "String") || (cal != nil && cal.Name() == "String" && cal.Type().(*types.Signature).Recv() != nil && cal.Pkg() != nil && strings.HasPrefix(cal.Pkg().Path(), modPath)):
+				n++
+				c.Bad("C01.COERCE", name+": String()", p.Pos(call.Pos()), "EvalString takes its result from a node's String() (the display form, e.g. %v for floats) instead of the value: a literal and the stored number it equals render differently and stop matching")
+			}
+		}
+	}
+	c.CallSites(n)
+	c.Floor("C01.COERCE", 4)
+}
+
+func asConst(v ssa.Value) *ssa.Const {
+	if k, ok := v.(*ssa.Const); ok {
+		return k
+	}
+	if cv, ok := v.(*ssa.Convert); ok {
+		if k, ok := cv.X.(*ssa.Const); ok {
+			return k
+		}
+	}
+	return &ssa.Const{}
 }
 
 // ruleC01Literal: the type of a number constant is decided by how the literal is written: the parse
